@@ -181,18 +181,18 @@ def run_property(pid, tier, seed, args):
     if lockdata and not args.write_lock:
         for tgt, now in shape.items():
             was = lockdata.get('shape', {}).get(tgt)
-            if was and was['sha256'] == now['sha256'] and was['paths'] != now['paths']:
+            if was and was['sha256'] == now['sha256'] and any(now['paths'].get(k) != v for k, v in was['paths'].items()):
                 log('CHECK-ERROR property=%s %s: source unchanged but explored paths differ from the lock (%s vs %s): '
                     'the check itself regressed' % (pid, tgt, now['paths'], was['paths']))
                 return 3
 
     # ---- discharge -----------------------------------------------------------------------------
     tasks = []
-    prepared = {}
+    solve._PREPARE.clear()
     for i, ob in enumerate(obligations):
-        ass, goal = obligation_smt(ob)
-        prepared[i] = (ass, goal)
-        tasks.append(solve.Task(i, solve.to_smt2(ass, goal)))
+        # preprocessing (equation solving, fold rewriting) is done inside the forked worker of the obligation
+        solve._PREPARE[i] = (lambda ob=ob: obligation_smt(ob) + (True,))
+        tasks.append(solve.Task(i, None))
     t_solve = time.time()
     results = solve.discharge_all(tasks, timeout_s=timeout)
     solve_wall = time.time() - t_solve
@@ -204,8 +204,8 @@ def run_property(pid, tier, seed, args):
         if rep is None:
             continue
         for nm, ass, goal in rep.canaries:
-            a2, g2 = T.prepare(ass, goal)
-            canary_tasks.append(solve.Task(nm, solve.to_smt2(a2, g2, negate=False), want_model=False))
+            solve._PREPARE[nm] = (lambda ass=ass, goal=goal: T.prepare(ass, goal) + (False,))
+            canary_tasks.append(solve.Task(nm, None, want_model=False))
     canary_res = solve.discharge_all(canary_tasks, timeout_s=10, second=False)
     # a clause whose assumptions contradict it is vacuous only if it was nevertheless "proved"; a clause that is
     # plainly false fails its obligation and is reported as a violation below
@@ -364,7 +364,7 @@ def run_property(pid, tier, seed, args):
     sample_idx = [i for i, ob in enumerate(obligations) if ob.kind in ('post', 'lemma')][:3]
     samples = []
     for i in sample_idx:
-        samples.append({'obligation': obligations[i].name, 'smt2': tasks[i].smt2[:4000]})
+        samples.append({'obligation': obligations[i].name, 'smt2': (tasks[i].smt2 or '')[:4000]})
     level = spec.get('level', 'proof')
     if undecided_fns or undecided:
         level = 'other'
